@@ -181,6 +181,9 @@ def big_history(rng, maxl=4, judge='all'):
         elif k == 'cmp':
             script += ' @%d @%d bcmp out' % (i, j)
             expect.append('o|' + ('E' if a == b else ('L' if a < b else 'G')))
+            opr = rng.choice(['lt', 'le', 'gt', 'ge'])
+            script += ' @%d @%d b%s out' % (i, j, opr)
+            expect.append('b|%d' % (1 if {'lt': a < b, 'le': a <= b, 'gt': a > b, 'ge': a >= b}[opr] else 0))
         elif k == 'neg':
             script += ' @%d bneg out' % i
             expect.append(exp_big(-a))
@@ -261,6 +264,10 @@ def num_history(rng, maxl=2, judge='all', bitcap=320):
         elif k == 'cmp':
             script += ' @%d @%d ncmp out' % (i, j)
             expect.append('o|' + ('N' if a is None or b is None else ('E' if a == b else ('L' if a < b else 'G'))))
+            opr = rng.choice(['lt', 'le', 'gt', 'ge'])
+            script += ' @%d @%d n%s out' % (i, j, opr)
+            nanp = a is None or b is None
+            expect.append('b|%d' % (0 if nanp else (1 if {'lt': a < b, 'le': a <= b, 'gt': a > b, 'ge': a >= b}[opr] else 0)))
         elif k in ('add', 'mul'):
             v = F.add(a, b) if k == 'add' else F.mul(a, b)
             script += ' @%d @%d n%s out' % (i, j, k)
@@ -303,12 +310,16 @@ def num_history(rng, maxl=2, judge='all', bitcap=320):
 def run_hv_num(lines, binary=None):
     """-> list of output lines (one per input line) or raises Inconclusive."""
     data = ('\n'.join(lines) + '\n').encode('utf-8')
-    p = subprocess.run([binary or C.HV_NUM], input=data, stdout=subprocess.PIPE, stderr=subprocess.PIPE,
-                       env=C.CHILD_ENV)
-    out = p.stdout.decode('utf-8', 'replace').split('\n')
+    # a batch takes about a second on the repaired tree; the CPU limit (two orders of magnitude above that) turns an
+    # arithmetic routine that never returns into an observation instead of a check that never ends
+    p = C.run_proc([binary or C.HV_NUM], data, cpu=180, wall=1800)
+    out = p.out.decode('utf-8', 'replace').split('\n')
     if out and out[-1] == '':
         out.pop()
-    return p.returncode, out, p.stderr.decode('utf-8', 'replace')
+    if p.cpu_killed and out and not p.out.endswith(b'\n'):
+        out.pop()          # a partial last line
+    rc = 'cpu-limit' if p.cpu_killed else ('watchdog' if p.wall_timeout else p.rc)
+    return rc, out, p.err.decode('utf-8', 'replace')
 
 
 def judge_batch(cases, rc, outs):
@@ -316,7 +327,12 @@ def judge_batch(cases, rc, outs):
     bad = []
     for idx, c in enumerate(cases):
         if idx >= len(outs):
-            bad.append((c, 'no output for this case (harness process died: rc=%s)' % rc))
+            if rc == 'watchdog':
+                raise C.Inconclusive('wall-clock watchdog while running a batch of number scripts')
+            if idx == len(outs):
+                # only the first case without output is attributed (the ones behind it never ran)
+                bad.append((c, 'no result for this case: %s' % ('the operation did not finish within the CPU limit (batches take about a second)'
+                                                                if rc == 'cpu-limit' else 'the harness process died, rc=%s' % rc)))
             continue
         toks = outs[idx].split('\t') if outs[idx] != '' else []
         if any(t.startswith('PANIC|') for t in toks):
